@@ -178,13 +178,12 @@ class LinearReconstructEveryK(TimeStepFilter):
         time_indices = jnp.zeros(shape=(self._time_steps_max,), dtype=jnp.int32)
         time_indices = time_indices.at[self._save_time_steps].set(index_tmp)
         for _ in range(self.k - 1):
-            rolled = jnp.roll(time_indices, 1)
+            rolled = jnp.roll(time_indices, 1).at[0].set(0)
             time_indices = jnp.where(
                 time_indices == 0,
                 rolled,
                 time_indices,
             )
-            time_indices = time_indices.at[: self.k].set(0)
         self = self.aset("_time_to_arr_idx", time_indices, create_new_ok=True)
         return self, self._array_size, input_shape_dtypes, {}
 
